@@ -10,6 +10,7 @@ import (
 	"net/http"
 	"strconv"
 	"strings"
+	"sync/atomic"
 	"time"
 
 	sse "github.com/tmaxmax/go-sse"
@@ -38,10 +39,16 @@ type scriptedReader struct {
 	endErr      error
 	errWithLast bool
 	pulled      int
-	closed      bool
+	closed      atomic.Bool
 }
 
+// errBodyClosed: what net/http's response bodies answer to a Read after Close
+var errBodyClosed = errors.New("http: read on closed response body")
+
 func (r *scriptedReader) Read(p []byte) (int, error) {
+	if r.closed.Load() {
+		return 0, errBodyClosed
+	}
 	if len(r.chunks) == 0 {
 		return 0, r.endErr
 	}
@@ -58,7 +65,7 @@ func (r *scriptedReader) Read(p []byte) (int, error) {
 	}
 	return n, nil
 }
-func (r *scriptedReader) Close() error { r.closed = true; return nil }
+func (r *scriptedReader) Close() error { r.closed.Store(true); return nil }
 
 func errClass(err error) string {
 	switch {
@@ -132,7 +139,17 @@ func runParse(args []string) string {
 		}
 		errOut := "nil"
 		n := 0
-		seq := sse.Read(rd, rc)
+		// a whole stream handed over in one piece is, every other time, a *bytes.Reader (a reader that knows its
+		// length: Len()) — what most callers of Read have in hand
+		var src io.Reader = rd
+		var lenRd *bytes.Reader
+		total := 0
+		if len(rd.chunks) == 1 && args[1] != "1" && args[2] != "1" && len(rd.chunks[0])%2 == 1 {
+			total = len(rd.chunks[0])
+			lenRd = bytes.NewReader(rd.chunks[0])
+			src = lenRd
+		}
+		seq := sse.Read(src, rc)
 		seq(func(e sse.Event, err error) bool {
 			if err != nil {
 				errOut = errClass(err)
@@ -149,6 +166,9 @@ func runParse(args []string) string {
 			return n != stop
 		})
 		pulled := rd.pulled
+		if lenRd != nil {
+			pulled = total - lenRd.Len()
+		}
 		// the returned sequence may be ranged over again (Go iterators are re-entrant by convention): whatever a
 		// second pass finds in the reader, it must not panic (a panic is caught by the case runner)
 		seq(func(sse.Event, error) bool { return true })
